@@ -28,7 +28,7 @@ func init() {
 			"undecided|subroute|http|wrapper|errmatcher|aftermatch). oracles: (a) never-early, one-sided: observed end - observed start >= timeout when the abort reason is the timeout; " +
 			"(b) bounded: ended by timeout+max(1s,timeout), evaluated only when the scheduler canary stayed below slack/4; (c) bytes pulled from the client <= 8192+2048; " +
 			"(d) fails closed: no handler/fallback event, connection closed; (e) after a match a sink still receives bytes sent 2x timeout later. " +
-			"non-trivial = the run reached its deciding observation; distinct = hash(all run parameters). variant aftermatch-nodata: every route of a subroute is decided as not matching without any read; the handler behind the subroute still receives data sent 2x timeout later and no deadline is left armed",
+			"non-trivial = the run reached its deciding observation; distinct = hash(all run parameters). variant aftermatch-nodata: every route of a subroute is decided as not matching without any read; the handler behind the subroute still receives data sent 2x timeout later and no deadline is left armed. flooding tcp clients write segments of 4 KiB or 64 KiB",
 		Assumptions: []string{
 			"UDP end-of-association is observed through the scripted matcher's evaluation history (a restart of the accumulated prefix), which bounds the abort time from above only",
 			"upper bounds are statistical (canary-guarded); lower bounds are exact up to the observer clock",
@@ -403,7 +403,8 @@ func runTCP(canary *oracle.Canary, r *Run) *outcome {
 				}
 			}
 		case r.Client == "flood":
-			chunk := bytes.Repeat([]byte{3}, 4096)
+			// (every other run floods in segments far larger than a prefetch chunk: a read gets as much as it asks for)
+			chunk := bytes.Repeat([]byte{3}, []int{4096, 65536}[r.Index%2])
 			for i := 0; i < 64; i++ {
 				if _, err := client.Write(chunk); err != nil {
 					return
